@@ -181,6 +181,52 @@ func (h *harness) collapseCase(s string) {
 	h.add("collapse", "xsd.speccollapse "+vh.XS(s), vh.XS(want), "ref")
 }
 
+// flush sends the queued protocol lines through the Lean driver and diffs the answers (T3).
+func (h *harness) flush() {
+	if *nomodel || len(h.items) == 0 {
+		h.items = h.items[:0]
+		return
+	}
+	lines := make([]string, len(h.items))
+	for i, it := range h.items {
+		lines[i] = it.line
+	}
+	res, err := vh.Driver{Path: *driver}.RunParallel(lines)
+	if err != nil {
+		fmt.Fprintln(os.Stderr, err)
+		os.Exit(2)
+	}
+	for i, it := range h.items {
+		h.rep.Compared++
+		m := res[i]
+		switch it.kind {
+		case "map":
+			// "ok ~": the model accepts and does not determine the text (a float was formatted)
+			if m == it.goR || (m == "ok ~" && strings.HasPrefix(it.goR, "ok ")) {
+				if m == "ok ~" {
+					h.rep.Count("model:lexical-form-undetermined")
+				}
+				continue
+			}
+		case "teq":
+			if m == it.goR || m == "unknown" {
+				continue
+			}
+		default:
+			if m == it.goR {
+				continue
+			}
+		}
+		what := "model ≠ implementation"
+		if it.kind == "spec" || it.desc == "ref" {
+			what = "Lean spec ≠ XSD regular expression / reference of the harness"
+		}
+		h.rep.Count("disagreement:" + it.kind)
+		h.rep.Add(vh.Case{Kind: "disagreement", Op: it.line, Go: it.goR, Model: m, Detail: what + " (" + it.kind + " " + it.desc + ")"})
+	}
+	h.items = h.items[:0]
+}
+
 func parseLine(l string) (t *xtype, s string, ok bool) {
 	f := strings.Fields(l)
 	if len(f) < 3 || !strings.HasPrefix(f[0], "xsd.") {
@@ -230,9 +276,9 @@ func main() {
 				}
 			}
 		}
-		n := 400 * *scale
+		n := 2500 * *scale
 		if *tier == "thorough" {
-			n = 12000 * *scale
+			n = 150000 * *scale
 		}
 		h.generate(n)
 	}
@@ -249,43 +295,7 @@ func main() {
 		return
 	}
 
-	lines := make([]string, len(h.items))
-	for i, it := range h.items {
-		lines[i] = it.line
-	}
-	res, err := vh.Driver{Path: *driver}.RunParallel(lines)
-	if err != nil {
-		fmt.Fprintln(os.Stderr, err)
-		os.Exit(2)
-	}
-	for i, it := range h.items {
-		rep.Compared++
-		m := res[i]
-		switch it.kind {
-		case "map":
-			// "ok ~": the model accepts and does not determine the text (a float was formatted)
-			if m == it.goR || (m == "ok ~" && strings.HasPrefix(it.goR, "ok ")) {
-				if m == "ok ~" {
-					rep.Count("model:lexical-form-undetermined")
-				}
-				continue
-			}
-		case "teq":
-			if m == it.goR || m == "unknown" {
-				continue
-			}
-		default:
-			if m == it.goR {
-				continue
-			}
-		}
-		what := "model ≠ implementation"
-		if it.kind == "spec" || it.desc == "ref" {
-			what = "Lean spec ≠ XSD regular expression / reference of the harness"
-		}
-		rep.Count("disagreement:" + it.kind)
-		rep.Add(vh.Case{Kind: "disagreement", Op: it.line, Go: it.goR, Model: m, Detail: what + " (" + it.kind + " " + it.desc + ")"})
-	}
+	h.flush()
 	if err := rep.Write(*out); err != nil {
 		fmt.Fprintln(os.Stderr, err)
 		os.Exit(2)
